@@ -73,6 +73,11 @@ def one(mut, tier):
             res[prop] = dict(rc=rc, violation_for=viol, keys=keys, secs=secs)
             if rc not in (0, 1):
                 res[prop]['tail'] = tail
+        if mut.get('benign'):
+            # a behaviour-preserving change: every check must stay silent (exit 0)
+            loud = {p: v for p, v in res.items() if v['rc'] != 0}
+            return dict(id=mut['id'], prop=mut['prop'], verdict='silent-on-all-checks' if not loud else 'ALARM-on-benign-change',
+                        note=mut.get('note', ''), alarms={p: dict(rc=v['rc'], keys=v['keys']) for p, v in loud.items()}, checks=res)
         r = res[mut['prop']]
         verdict = 'caught' if (r['rc'] == 1 and mut['prop'] in r['violation_for']) else 'MISSED' if r['rc'] == 0 else 'check-exit-%s' % r['rc']
         if verdict == 'MISSED' and mut.get('equivalent'):
@@ -94,9 +99,24 @@ def seeded():
     return out
 
 
+ALL_PROPS = ['C%02d' % i for i in range(1, 21)]
+
+
+def benign():
+    """Behaviour-preserving refactorings kept under /verif/benign/<name>/ (patch.diff, notes.md, meta.json): all twenty
+    checks are run against each and must stay silent."""
+    out = []
+    for meta in sorted(glob.glob(os.path.join(HERE, 'benign', '*', 'meta.json'))):
+        d = json.load(open(meta))
+        out.append(dict(id='benign-' + os.path.basename(os.path.dirname(meta)), prop='C01', also=ALL_PROPS[1:], benign=True,
+                        patch=os.path.join(os.path.dirname(meta), 'patch.diff'), note=d.get('theme', '')))
+    return out
+
+
 def main(argv):
     sys.path.insert(0, HERE)
     par, tier, want, use_seeded = 3, 'quick', [], False
+    use_benign = False
     it = iter(argv)
     for a in it:
         if a == '--par':
@@ -105,9 +125,13 @@ def main(argv):
             tier = next(it)
         elif a == '--seeded':
             use_seeded = True
+        elif a == '--benign':
+            use_benign = True
         else:
             want.append(a)
-    if use_seeded:
+    if use_benign:
+        muts = benign()
+    elif use_seeded:
         muts = seeded()
     else:
         from pv.selftest import mutants
@@ -127,7 +151,10 @@ def main(argv):
             print('%-34s %-4s %-22s %s %s' % (r['id'], r['prop'], r['verdict'], ','.join(c.get('keys', [])) or r.get('detail', ''),
                                               ('%ss' % c.get('secs')) if c else ''), flush=True)
     results.sort(key=lambda r: r['id'])
-    name = 'selftest_seeded.json' if use_seeded else 'selftest_results.json'
+    name = 'selftest_benign.json' if use_benign else 'selftest_seeded.json' if use_seeded else 'selftest_results.json'
+    for r in results:
+        if r.get('alarms'):
+            print('  ALARMS on %s: %s' % (r['id'], json.dumps(r['alarms'])))
     path = os.path.join(HERE, name)
     old = []
     if want and os.path.exists(path):
